@@ -199,6 +199,9 @@ class JacobianAssembly:
     __minimal_couplings: set[str]
     """The minimal couplings."""
 
+    __differentiated_disciplines: set[Discipline]
+    """The disciplines involved in the last differentiation."""
+
     coupled_system: CoupledSystem
     """The coupled derivative system of residuals."""
 
@@ -247,6 +250,7 @@ class JacobianAssembly:
         self.disciplines = {}
         self.__last_diff_inouts = (set(), set())
         self.__minimal_couplings = set()
+        self.__differentiated_disciplines = set()
         self.coupled_system = CoupledSystem()
         self.__linear_solver_factory = LinearSolverLibraryFactory(use_cache=True)
 
@@ -617,6 +621,7 @@ class JacobianAssembly:
                 coupling_structure, variables, functions
             )
             self.__last_diff_inouts = diff_ios
+            self.__differentiated_disciplines = set(diff_ios_merged)
 
             couplings = [
                 coupl
@@ -694,6 +699,17 @@ class JacobianAssembly:
             states,
             self.coupling_structure,
         )
+
+        # The residuals of the disciplines that are not involved in the differentiation
+        # are not differentiated and do not take part in the coupled system.
+        if residual_variables:
+            residual_variables = {
+                residual: state
+                for residual, state in residual_variables.items()
+                if self.coupling_structure.find_discipline(residual)
+                in self.__differentiated_disciplines
+            }
+            states = list(residual_variables.values())
 
         # Exclude the non-numeric couplings from the coupling minimal list
         for discipline in self.coupling_structure.disciplines:
